@@ -179,9 +179,21 @@ example : Reads witnessFreeParamFun (.node .kFUN_CALL 0 [.node .kIDENTIFIER 3 []
   .callBody (fd := witnessFreeParamFun[0]) (b := .node .kIDENTIFIER 1 []) (by simp [witnessFreeParamFun]) rfl
     (by simp [witnessFreeParamFun, exprsOf, exprsOfL]) (.ident 1 []) (by decide) (by decide)
 
-/-- the computed exception set of the current source -/
-theorem C13_exceptions_today :
-    c13Exceptions genCfg = ["random:nested-operand", "random:via-function-body", "free-param:array-size-via-function"] ∨
-    c13Exceptions genCfg = ["random:via-function-body", "free-param:array-size-via-function"] := by decide
+/-! ## the contexts -/
+
+/-- array size, range bound, scalar-set size, select domain, global / template-level initialiser: not computable ⇒ rejected
+    (whatever the other tests of the site say) -/
+theorem C13_contexts : ∀ c ∈ Context.all, c.needsCtc = true → ∀ typedOk changes : Bool,
+    c.rejects genCfg typedOk false changes = true := by decide
+
+/-- an argument bound to a by-value parameter or to a constant reference parameter is rejected unless computable;
+    a non-constant reference parameter takes any unique lvalue -/
+theorem C13_argument : ∀ ref constant uniqueRef : Bool, (ref = false ∨ constant = true) →
+    argRejects genCfg ref constant false uniqueRef = true := by decide
+theorem C13_argument_twin : ∀ ref constant : Bool, argRejects genCfg ref constant true true = false := by decide
+
+/-- the computed exception set of the current source contains nothing but the three listed shapes -/
+theorem C13_exceptions_today : ∀ x ∈ c13Exceptions genCfg,
+    x ∈ ["random:nested-operand", "random:via-function-body", "free-param:array-size-via-function"] := by decide
 
 end UtapModel.C13
